@@ -8,14 +8,28 @@ never exceeds its watermark, report().bytes equals len()."""
 from gen import reassembler as base
 
 
+def to_slots(lines):
+    return ["pop " + l.split()[1] if l.startswith("popn ") else l for l in lines]
+
+
 def gen(rng, n, tier):
-    out = []
-    for l in base.gen(rng, n, tier):
-        if l.startswith("popn "):
-            out.append("pop " + l.split()[1])
-        else:
-            out.append(l)
-    return out
+    return to_slots(base.gen(rng, n, tier))
+
+
+def diff(ctx, n, exhaustive_too=False):
+    import sys
+    import vlib
+    me = sys.modules[__name__]
+    vlib.step_diff(ctx, "vh-core", "reassembler-slots", me, n)
+    if exhaustive_too:
+        for name, ops in base.exhaustive_shards():
+            class Shard:
+                oracle = staticmethod(me.oracle)
+                nontrivial = staticmethod(lambda op, out: None)
+                gen = staticmethod(lambda rng, n, tier, ops=ops: to_slots(ops))
+            res = vlib.step_diff(ctx, "vh-core", "reassembler-slots", Shard, 0,
+                                 name="D:vh-core/reassembler-slots exhaustive, " + name)
+            del res
 
 
 def _base_view(op, out):
